@@ -1,4 +1,5 @@
 """C02 — a response is delivered only to the request (stream, client) that caused it."""
+from checks import pendingstage
 from checks import reqfamily as rf
 
 
@@ -31,4 +32,4 @@ def run(ctx):
                              "-stalldrops", "6", "-okbias", "6", "-nodrops"], False),
         ("scripted-3x1", ["-nodes", "3", "-numconns", "1", "-clients", "4", "-workers", "4", "-round", "160"], True),
     ]
-    rf.run_property(ctx, "C02", plans, nscen=300)
+    rf.run_property(ctx, "C02", plans, nscen=300, stages=[lambda c: pendingstage.run(c, "C02")])
